@@ -545,28 +545,15 @@ __bizda_to_ymd(dt_bizda_t d)
 }
 
 static dt_ywd_t
-__bizda_to_ywd(dt_bizda_t d, dt_bizda_param_t p)
+__bizda_to_ywd(dt_bizda_t d, dt_bizda_param_t UNUSED(p))
 {
-	unsigned int yd = __bizda_get_yday(d, p);
-
-	return __make_ywd_ybd(d.y, yd);
+	return __ymd_to_ywd(__bizda_to_ymd(d));
 }
 
 static dt_ymcw_t
 __bizda_to_ymcw(dt_bizda_t d, dt_bizda_param_t UNUSED(p))
 {
-	unsigned int c = __bizda_get_count(d);
-	dt_dow_t w = __bizda_get_wday(d);
-#if defined HAVE_ANON_STRUCTS_INIT
-	return (dt_ymcw_t){.y = d.y, .m = d.m, .c = c, .w = w};
-#else
-	dt_ymcw_t res;
-	res.y = d.y;
-	res.m = d.m;
-	res.c = c;
-	res.w = w;
-	return res;
-#endif
+	return __ymd_to_ymcw(__bizda_to_ymd(d));
 }
 
 static dt_daisy_t
